@@ -62,6 +62,16 @@ var c24Invalid = []int{65536, 65537, 70000, 131071, 1 << 31, math.MaxInt64, -1, 
 
 func validN(n int) bool { return n >= 0 && n <= 65535 }
 
+// replyWait is the bound for a call whose reply the history fixes: replies of
+// ~65535 ids are 2.7 MB messages, which the library re-parses on every arriving
+// segment; on a loaded machine that takes tens of seconds.
+func replyWait(o c24Op) time.Duration {
+	if o.K > 60000 {
+		return 10 * callWait
+	}
+	return callWait
+}
+
 func genN(rt *rapid.T) int {
 	switch c := rapid.IntRange(0, 99).Draw(rt, "n_class"); {
 	case c < 45:
@@ -393,7 +403,7 @@ func c24RealReal(x *c24Ctx, ops []c24Op) {
 		var r idsResult
 		select {
 		case r = <-callRequestTxIds(server, o.Blocking, o.N):
-		case <-time.After(callWait):
+		case <-time.After(replyWait(o)):
 			rt.Fatalf("RequestTxIds(%v,%d) did not return within %s\n%s", o.Blocking, o.N, callWait, goroutineDump())
 		}
 		ents := cl.entries()
@@ -729,7 +739,7 @@ func c24RawClient(x *c24Ctx, ops []c24Op) {
 		}
 		select {
 		case r = <-ch:
-		case <-time.After(callWait):
+		case <-time.After(replyWait(o)):
 			rt.Fatalf("op %d %s: RequestTxIds did not return after the reply\n%s", i, o, goroutineDump())
 		}
 		if r.err != nil {
